@@ -72,7 +72,7 @@ extern "C" void *verif_realloc(void *p, size_t n) {
 void *tree_alloc(int n) {
   void *p = malloc(n > 0 ? n : 1);
   if (!p) abort();
-  memset(p, 0xA5, n > 0 ? n : 1);
+  if (g_lib.poison) memset(p, 0xA5, n > 0 ? n : 1); // (off under valgrind: a filled block would count as initialised)
   g_tree.live[p] = n;
   g_tree.owner[p] = g_tree.epoch;
   g_tree.n_alloc++;
@@ -367,7 +367,7 @@ void analyseTree(yaep_tree_node *root, bool cost_mode, bool one_parse, long limi
 Outcome runParse(Binding &b, const std::vector<int> &codes, const Conf &cf, const ParseOpts &po) {
   Outcome o;
   setAttrBase(codes.size() + 2);
-  b.set_la(cf.la); b.set_one(cf.one); b.set_cost(cf.cost); b.set_rec(cf.rec); b.set_match(cf.match); b.set_dbg(cf.dbg);
+  if (po.apply_settings) { b.set_la(cf.la); b.set_one(cf.one); b.set_cost(cf.cost); b.set_rec(cf.rec); b.set_match(cf.match); b.set_dbg(cf.dbg); }
   g_toks = &codes; g_tp = 0; g_errs = &o.errs; g_termcb = 0;
   if (po.keep_tracking) g_tree.newEpoch(); else g_tree.reset();
   o.epoch = g_tree.epoch;
@@ -437,7 +437,8 @@ std::string Outcome::str() const {
   return s;
 }
 
-extern "C" void __sanitizer_set_report_fd(void *fd);
+// (weak fallback for the build without sanitizers; the sanitizer runtime's definition wins otherwise)
+extern "C" __attribute__((weak)) void __sanitizer_set_report_fd(void *fd) { (void)fd; }
 void reattachReports() {
   if (fcntl(250, F_GETFD) != -1) __sanitizer_set_report_fd((void *)250L);
   else __sanitizer_set_report_fd((void *)2L);
